@@ -38,7 +38,10 @@ Pats == { UCat(G(A1), Opt01(G(B1))),            \* (a)(b)?
 
 TChars == {TCDollar, TCOpen, TCClose, TC1, TC2, TCx, TCDash, TC0}
 ShortTpls == SeqsUpTo(TChars, 2)
-PickTpls == { <<TCDollar, TCOpen, TC1, TCClose>>, <<TCDollar, TCOpen, TCx, TCClose>>, <<TCDollar, TC1, TCDash>>, <<TCDollar, TC1, TCx>>,
+Big1 == <<TC4, TC2, TC9, TC4, TC9, TC6, TC7, TC2, TC9, TC7>>   \* 4294967297 = 2^32 + 1
+Big0 == <<TC4, TC2, TC9, TC4, TC9, TC6, TC7, TC2, TC9, TC6>>   \* 4294967296 = 2^32
+PickTpls == { <<TCDollar>> \o Big1, <<TCDollar, TCOpen>> \o Big1 \o <<TCClose>>, <<TCDash, TCDollar>> \o Big0 \o <<TCDash>>,
+              <<TCDollar, TCOpen, TC1, TCClose>>, <<TCDollar, TCOpen, TCx, TCClose>>, <<TCDollar, TC1, TCDash>>, <<TCDollar, TC1, TCx>>,
               <<TCDollar, TCOpen, TC1, TCClose, TCx>>, <<TCDollar, TCOpen, TC1>>, <<TCDollar, TCx, TC1>>,
               <<TCDash, TCDollar, TC1, TCDash, TCDollar, TC2, TCDash>>, <<TCDollar, TCDollar, TC1>>,
               <<TCDollar, TCOpen, TCx, TCClose, TCDollar, TCOpen, TC1, TCClose>>, <<TCDollar, TC1, TCa>>, <<TCDollar, TCOpen, TC2, TCClose, TCDash>>,
